@@ -1031,6 +1031,12 @@ func (c *StructConverter) To(obj Object) (interface{}, error) {
 			return value.Interface(), nil
 		}
 		return structValue.Interface(), nil
+	case *NilType:
+		// nil is the nil pointer; a struct held by value has no nil
+		if !c.isValueType {
+			return reflect.Zero(c.typ).Interface(), nil
+		}
+		return nil, errz.TypeErrorf("type error: expected a proxy or map (%s given)", obj.Type())
 	default:
 		return nil, errz.TypeErrorf("type error: expected a proxy or map (%s given)", obj.Type())
 	}
@@ -1041,6 +1047,10 @@ func (c *StructConverter) From(obj interface{}) (Object, error) {
 	typ := reflect.TypeOf(obj)
 	if typ != c.typ {
 		return nil, errz.TypeErrorf("type error: expected %s (%s given)", c.typ, typ)
+	}
+	// A nil pointer is nil, not a proxy whose every use fails
+	if v := reflect.ValueOf(obj); v.Kind() == reflect.Ptr && v.IsNil() {
+		return Nil, nil
 	}
 	// Wrap the object in a proxy
 	return NewProxy(obj)
